@@ -111,6 +111,12 @@ Definition theorem_applies_joins (d : document) : bool :=
   | Err _ => false
   end.
 
+(* ---- quoted triples maps at document level (Proofs/DocQuotedP.v): a triples map whose subject map quotes a plain triples map over the
+   same rows (no join condition); its predicate-object maps are ordinary *)
+Definition quoting_tm (t : tmapdef) : bool :=
+  mkind_eqb (m_kind (t_subj t)) KQuoted && (match m_tt (t_subj t) with None => true | _ => false end)
+  && forallb plain_graph (t_sgraphs t) && forallb plain_pom (t_poms t) && (match t_sjoins t with [] => true | _ => false end).
+
 (* the end-to-end theorem of C01 applies to this document and configuration *)
 Definition theorem_applies (nquads : bool) (d : document) : bool :=
   forallb plain_tm d && match normalise d with Ok rules => forallb simple_ruleb rules | Err _ => false end.
